@@ -220,6 +220,13 @@ def run_case(case, ctx):
             with np.errstate(all="ignore"):
                 # a negative zero divisor: x / -0.0 has the opposite sign of x / 0.0 (0 / -0.0 is NaN)
                 _binary(ctx, SA, "__truediv__", -0.0, "scalar", np.true_divide(A, -0.0), exact=True, AB=(A, np.full(shape, -0.0)))
+            # an infinite / NaN multiplier: an implicit zero times it is NaN, exactly as in the dense product (and as sparse / 0)
+            cnf = [np.inf, -np.inf, np.nan][gen.pick(case) % 3]
+            ctx.feat(scalar="nonfinite")
+            with np.errstate(all="ignore"):
+                _binary(ctx, SA, "__mul__", cnf, "scalar", A * cnf, exact=True, AB=(A, np.full(shape, cnf)))
+                r = ctx.call("sptensor.__rmul__", operator.mul, cnf, SA)
+                _judge(ctx, "sptensor.__rmul__", r, "scalar", cnf * A, exact=True, AB=(A, np.full(shape, cnf)))
             ctx.feat(scalar=None)
             if not case.get("large") and na:
                 # dense right-hand side whose values at stored positions differ from the stored ones in the last bit only (or are the
